@@ -102,7 +102,7 @@ def finish(pid, tier, seed, level, agg, t0, extra_cov=None, assumptions=None):
     write_json(os.path.join(EVIDENCE, "%s.json" % pid), ev)
     for l in out_lines:
         print(l)
-    print("%s %s: %s (%d states, %d transitions, %.0fs)" % (pid, tier, "VIOLATED" if rc else "held on everything explored", agg["states"], agg["transitions"], time.time() - t0))
+    print("%s %s: %s (%d states, %d transitions, %d evaluations, %.0fs)" % (pid, tier, "VIOLATED" if rc else "held on everything explored", agg["states"], agg["transitions"], cov["evaluations"], time.time() - t0))
     return rc
 
 
@@ -110,6 +110,9 @@ def cmd_check(pid, tier):
     seed = int(os.environ.get("VERIF_SEED", "0"))
     t0 = time.time()
     try:
+        if pid == "C03":
+            import others
+            return others.check_c03(tier, seed, t0)
         if pid in props.META:
             level = props.META[pid][0]
             agg = check_hx(pid, tier, seed)
